@@ -494,6 +494,65 @@ fn run2d<T: Fl>(job: &Job, quick: bool, out: &mut JobOut) {
     }
 }
 
+/// Superposition with a *different* (homogeneous) boundary pair per lane, on data sets whose
+/// neighbouring lanes are bit-identical copies: D1 = [u, u, v], D2 = [v, w, w]; the result for
+/// D1 + D2 must be the sum of the two results, lane by lane.
+fn run_superposition_per_lane(ax: &Axis, out: &mut JobOut) {
+    let x = &ax.x;
+    let n = x.len();
+    let kk = k_for(ax);
+    let q = queries(x);
+    let lane = |s: usize| -> Vec<f64> { (0..n).map(|i| [1.0, -0.5, 2.0, 0.25, -3.0, 1.5, 0.875, -1.25, 0.5, 3.0, -0.75][(i * 3 + s * 5) % 11]).collect() };
+    let (u, v, w) = (lane(0), lane(1), lane(2));
+    let homogeneous = [End::NotAKnot, End::Natural, End::Clamped];
+    let pairs: Vec<(End, End)> = homogeneous.iter().flat_map(|l| homogeneous.iter().map(move |r| (*l, *r))).filter(|(l, r)| n >= 4 || !(matches!(l, End::NotAKnot) && matches!(r, End::NotAKnot))).collect();
+    let mk = |cols: [&Vec<f64>; 3]| Array2::from_shape_fn((n, 3), |(i, j)| cols[j][i]);
+    let d1 = mk([&u, &u, &v]);
+    let d2 = mk([&v, &w, &w]);
+    let d12 = &d1 + &d2;
+    for (a, ca) in pairs.iter().enumerate() {
+        for (b, cb) in pairs.iter().enumerate() {
+            if a == b {
+                continue;
+            }
+            let cc = pairs[(a + b) % pairs.len()];
+            let kind = Kind::Spline(BcSpec::Lanes(vec![*ca, *cb, cc]));
+            let key = format!("superposition-per-lane:{}:{a},{b}", ax.name);
+            let (r1, r2, r12) = (eval1d::<f64>(&kind, x, &d1, &q), eval1d::<f64>(&kind, x, &d2, &q), eval1d::<f64>(&kind, x, &d12, &q));
+            let (Ok(r1), Ok(r2), Ok(r12)) = (r1, r2, r12) else {
+                out.violate(format!("{key}:eval"), "evaluation of a valid configuration failed".to_string(), Json::Null);
+                continue;
+            };
+            out.states += 3;
+            out.transitions += 3;
+            let span = x[n - 1] - x[0];
+            'cfg: for (qi, &qv) in q.iter().enumerate() {
+                let t = if qv < x[0] { (x[0] - qv) / span } else if qv > x[n - 1] { (qv - x[n - 1]) / span } else { 0.0 };
+                let amp = if t > 0.0 { 16.0 * (1.0 + t).powi(3) * ax.mesh_ratio.max(1.0).powi(2) } else { 1.0 };
+                for j in 0..3 {
+                    let want = r1[[qi, j]] + r2[[qi, j]];
+                    let got = r12[[qi, j]];
+                    let tol = 2.0 * kk * f64::EPSILON * 24.0 * amp;
+                    out.evals += 1;
+                    out.nontrivial += 1;
+                    out.maximum("superposition_per_lane_err_over_tol", (want - got).abs() / tol);
+                    if !((want - got).abs() <= tol) {
+                        out.violate(
+                            key.clone(),
+                            format!("superposition with per-lane boundary conditions {:?}: lane {j} of the summed data at q={qv} is {got:e}, the sum of the two results is {want:e} (tol {tol:e})", [ca, cb, &cc]),
+                            Json::obj(vec![("x", Json::f64s(x)), ("lane", Json::Int(j as i128)), ("query", Json::Num(qv))]),
+                        );
+                        break 'cfg;
+                    }
+                }
+            }
+        }
+    }
+    if out.sample.is_none() {
+        out.sample = Some(Json::str(&format!("superposition per lane on {}", ax.name)));
+    }
+}
+
 fn body(ctx: &Ctx) -> (Summary, Meta) {
     let quick = ctx.quick();
     let mut jobs = vec![];
@@ -526,7 +585,12 @@ fn body(ctx: &Ctx) -> (Summary, Meta) {
         }
     }
     let njobs = jobs.len();
-    let sum = run_jobs(ctx, "units-and-linearity", &jobs, |j| j.key(), |j| {
+    let sp_axes: Vec<Axis> = {
+        let mut v = alpha::full_word_axes(&alpha::h3(), "w", 3, if quick { 4 } else { 5 }, &[0.0]);
+        v.push(alpha::axis_from_word("L", 0.0, &[1.0, 1.0, 4.0, 1.0, 1.0, 1.0, 1.0, 0.5, 1.0]));
+        v
+    };
+    let mut sum = run_jobs(ctx, "units-and-linearity", &jobs, |j| j.key(), |j| {
         let mut out = JobOut::default();
         match (&j.kind, j.f32) {
             (Kind::Bilinear(_), false) => run2d::<f64>(j, quick, &mut out),
@@ -536,8 +600,13 @@ fn body(ctx: &Ctx) -> (Summary, Meta) {
         }
         out
     });
+    sum.merge(run_jobs(ctx, "superposition-per-lane-conditions", &sp_axes, |a| format!("superposition-per-lane:{}", a.name), |a| {
+        let mut out = JobOut::default();
+        run_superposition_per_lane(a, &mut out);
+        out
+    }));
     let meta = Meta {
-        rule: "for every (axis, strategy/boundary configuration): a base interpolator and twins in converted units: axis and queries x cx, data x cd (derivative boundary values converted with cd/cx and cd/cx^2), grid shifts of axis+queries, and the sum of every pair of lanes; in-range and extrapolated queries. Powers of two, negation and grid shifts must be bit-identical; factors 3 and 1/10 and superposition within rounding. Every comparison is non-trivial.".into(),
+        rule: "for every (axis, strategy/boundary configuration): a base interpolator and twins in converted units: axis and queries x cx, data x cd (derivative boundary values converted with cd/cx and cd/cx^2), grid shifts of axis+queries, and the sum of every pair of lanes; in-range and extrapolated queries. Powers of two, negation and grid shifts must be bit-identical; factors 3 and 1/10 and superposition within rounding. Phase superposition-per-lane-conditions: data sets D1 = [u,u,v], D2 = [v,w,w] (neighbouring lanes bit-identical) under every ordered pair of different homogeneous boundary pairs {NotAKnot,Natural,Clamped}^2 per lane: S(D1+D2) = S(D1)+S(D2) lane by lane. Every comparison is non-trivial.".into(),
         bounds: format!("{njobs} (type, axis/grid, configuration) jobs; {} (cx, cd) pairs from cx in {{2^-20,2^-3,2,2^5,2^20,3,1/10}}, cd in {{2^-20,1/2,-1,2^7,2^20,3,-1/10}}; shifts {:?}; 2-D: independent cx, cy; tier {}", factors(quick, false).len(), SHIFTS, ctx.tier.name()),
         assumptions: vec!["inexact factors: tolerance K eps |result| (4 + 2 max|x|/h_min) (the rounded knots perturb the interval lengths)".into()],
         extra: vec![],
